@@ -6,7 +6,6 @@ import checks
 
 ALL = ["C%02d" % i for i in range(1, 21)]
 NA = {
-    "C14": "PALS q-gram filter: control flow depends on the data at every step (loop bounds read from the k-mer index at a symbolic k-mer, per-tube counters, sort of symbolic hits); the k-mer index alone (C10) already needs k<=3 to keep single solver queries under the time-out, so symbolic execution of the filter degenerates into enumeration of k-mer equality patterns; declared not applicable rather than switching technique (DESIGN.md §5)",
     "C15": "whole-pipeline PALS heuristic on kb-scale inputs: data-dependent loop bounds, floating-point acceptance test, 100k-element buffers, and a minimum hit length that makes every instance the symbolic engine can unroll vacuous (DESIGN.md §4 C15)",
 }
 NOT_YET = "check not built yet in this session (solver-based harness planned in DESIGN.md §4); not claimed"
